@@ -162,7 +162,7 @@ pub fn run_session(ls: &std::path::Path, uris: &[Url; 2], s: &Session, pacing: P
         };
         msgs.push((message(uris, &st.event, id, id as i32), aw, st.idle_after || aw == Await::Nothing));
     }
-    msgs.push((json!({"jsonrpc": "2.0", "id": n + 1, "method": "shutdown", "params": null}), Await::Response(n + 1), true));
+    msgs.push((json!({"jsonrpc": "2.0", "id": n + 1, "method": "shutdown", "params": null}), Await::Response(n + 1), false));
     msgs.push((json!({"jsonrpc": "2.0", "method": "exit", "params": null}), Await::Nothing, false));
 
     let mut received: Vec<Value> = vec![];
@@ -349,6 +349,16 @@ pub fn run_session(ls: &std::path::Path, uris: &[Url; 2], s: &Session, pacing: P
             ),
             step: None,
         });
+    }
+    if let Some(o) = &s.origin {
+        // whatever goes wrong after a swallowed panic (empty answers while the dead thread is not
+        // yet noticed, death of the server) is the one defect "nothing recovers from it"
+        for f in res.findings.iter_mut() {
+            if ["stdio-reply-mismatch", "stdio-diag-mismatch", "stdio-error-reply", "stdio-server-died"].iter().any(|p| f.key.starts_with(p)) {
+                f.detail = format!("{}: {}", f.key, f.detail);
+                f.key = format!("server-dies-after-swallowed-panic:{o}");
+            }
+        }
     }
     Ok(res)
 }
